@@ -348,11 +348,13 @@ PROPERTIES["C20"] = dict(
                 "build the ssa.Function that the REAL inferContracts analyses; the function's semantics is one SMT term over 'x is nil' and the opaque conditions, and 'contract inferred => for all valuations with x non-nil "
                 "the result is non-nil' is one solver query per program. K2 (call-site gating in the inference engine): symx executes Engine.ObservePackage / buildPkgInferenceMap / buildFromSingleFullTrigger / activateControlledTriggers from SSA on real FullTrigger "
                 "values that include CONTROLLED triggers (the form in which an inferred nonnil->nonnil contract reaches the engine: 'the call-site result is nilable if the call-site argument is'), with annotations "
-                "replayed first, symbolic site identities and every arrival order; the oracle is the least fixpoint of 'nilable' in which a controlled constraint exists iff its controller site is nilable.",
-    bounds=dict(quick="K1: all 775 functions of statement depth 1 over 7 condition forms, 5 result forms, 3 assignment forms; K2: <=3 triggers/annotations over 2x2 sites incl. controlled triggers (C05 L2 harness); the six-trigger `return nil, e2()` -> g(v) -> *g(v) scenario in all 720 orders, value result incorporated in either inference round",
-                thorough="K1: statement depth 2 over 3 condition forms and 3 result forms; K2: <=4 triggers over 2x2 sites"),
+                "replayed first, symbolic site identities and every arrival order; the oracle is the least fixpoint of 'nilable' in which a controlled constraint exists iff its controller site is nilable. "
+                "K3 (call-site bookkeeping): the REAL duplicateFullTriggersFromContractedFunctionsToCallers runs on a parsed and type-checked package whose caller nests calls of contracted (f, g), non-contracted (h) and two-contract (k) functions; "
+                "every contracted call, wherever it is nested, must get exactly one controlled copy of the callee's param->return trigger located at that call (shape enumeration, no symbolic scalars).",
+    bounds=dict(quick="K3: 1 statement of expression depth 2 / 2 statements of depth 1 over {x, f(), g(), h(), k(), ()}; K1: all 775 functions of statement depth 1 over 7 condition forms, 5 result forms, 3 assignment forms; K2: <=3 triggers/annotations over 2x2 sites incl. controlled triggers (C05 L2 harness); the six-trigger `return nil, e2()` -> g(v) -> *g(v) scenario in all 720 orders, value result incorporated in either inference round",
+                thorough="K1: statement depth 2 over 3 condition forms and 3 result forms; K2: <=4 triggers over 2x2 sites; K3: 2 statements of depth 2, 1 statement of depth 3"),
     outside=["K1 beyond its grammar: loops, calls, field/array/map reads, several parameters, named results, defer/panic; functions deeper than the bound",
-             "the call-site bookkeeping in the assertion tree (AddComputation: HasContract, getFuncReturnProducers, duplicateFullTrigger)", "cross-package contract facts"],
+             "the call-site sites the assertion tree itself creates (AddComputation: HasContract, getFuncReturnProducers); the duplication of the callee's triggers to every call (findCallsToContractedFunctions, duplicateFullTrigger) IS covered by K3 for calls nested to depth 2-3 in one caller", "cross-package contract facts"],
     assumptions=COMMON_ASSUMPTIONS + ["primitivizer.site/fullTrigger stubbed as in C05 L2 (validated natively)", "the consumer site of a controlled trigger is a call-site return site (duplicateFullTrigger)"],
     runs=[
         dict(pkg="inference", files=INFER_FILES, entry="Harness_C05_L2",
@@ -362,5 +364,9 @@ PROPERTIES["C20"] = dict(
              quick=dict(params=dict(TRIGGERS=3)), thorough=dict(params=dict(TRIGGERS=4)), args=dict(sample_every=1)),
         dict(pkg="assertion/function/functioncontracts", files=["functioncontracts/zz_verif_c20.go"], entry="Harness_C20_K1",
              quick=dict(params=dict(DEPTH=1)), thorough=dict(params=dict(DEPTH=2, CONDS=3, RESULTS=3)), args=dict(sample_every=37)),
+        dict(pkg="assertion/function", files=["function/zz_verif_c20k2.go", "config::config/zz_verif_export.go"], entry="Harness_C20_K2",
+             quick=dict(params=dict(DEPTH=2, STMTS=1)), thorough=dict(params=dict(DEPTH=2, STMTS=2)), args=dict(sample_every=17)),
+        dict(pkg="assertion/function", files=["function/zz_verif_c20k2.go", "config::config/zz_verif_export.go"], entry="Harness_C20_K2", name="_deep",
+             quick=dict(params=dict(DEPTH=1, STMTS=2)), thorough=dict(params=dict(DEPTH=3, STMTS=1)), args=dict(sample_every=17)),
     ],
 )
